@@ -6,6 +6,7 @@ CONSTANTS
   Mode = "context"
   GeomRefs = {}
   MaxFrags = 1
+  DistMode = "zero"
   Variant = "design"
 CONSTRAINT Emit
 CHECK_DEADLOCK FALSE
